@@ -547,6 +547,12 @@ class VarsManager(object):
                 self.variables[name] = var
 
         if cplx:
+            # all members read the kept cells in the coordinates of their owner
+            head = new_name_list[0] if new_name_list else None
+            if head in self.complex_vars:
+                for name in name_list:
+                    if name in self.complex_vars:
+                        self.complex_vars[name] = self.complex_vars[head]
             same_real([name + "r" for name in new_name_list])
             same_real([name + "i" for name in new_name_list])
         else:
